@@ -107,6 +107,7 @@ func (x *Ex) genInventory() string {
 	x.inventory(f, "mapRanges", "every range over a map-typed expression in library code", x.mapRanges(), "C11")
 	x.inventory(f, "packageWrites", "every write rooted at a package-level variable in library code", x.packageWrites(), "C11", "C12")
 	x.inventory(f, "hazardSites", "index / slice / type-assertion / panic sites of library code", x.hazardSites(), "C01")
+	x.inventory(f, "mutationSites", "every write to a html.Node / url.URL / Options value in library code", x.mutationSites(), "C10")
 	x.inventory(f, "packageVars", "package-level variables of library code", x.packageVars(), "C12")
 	return f.finish()
 }
